@@ -74,7 +74,14 @@ def r7_end_to_end(run, tree):
     qs.check_inplace_stack(run, tree)
 
 
-RULES = [r1_inplace_twins, r2_out, r3_rhs_not_written, r4_deep_copies, r6_views, r7_end_to_end]
+def r_conversion_history(run, tree):
+    run.rule("C17.R8", "a conversion is computed from the operand as it is NOW: converting, changing the buffer in place, converting again gives the new values (no memo of an earlier conversion; shared with C02.R7/C08.R6)",
+             "D7 history fold of Array.to with symbolic buffers", "", floor=1)
+    from . import quantity_stack as qs
+    qs.check_to_stack(run, tree, only=("history",))
+
+
+RULES = [r1_inplace_twins, r2_out, r3_rhs_not_written, r4_deep_copies, r6_views, r7_end_to_end, r_conversion_history]
 
 
 def t_pair_space(run, tree):
